@@ -155,7 +155,8 @@ AssignList(av, nr, sc) ==
   LET ids == SelectSeq([i \in 1..N |-> i], LAMBDA i : i \in av)
   IN  [j \in 1..Len(ids) |-> [r |-> Idx(ids[j], nr), s |-> ids[j], c |-> IF sc[ids[j]] >= 0 THEN sc[ids[j]] ELSE 0]]
 
-Log(r) == hist' = IF LogOn THEN Append(hist, r) ELSE hist
+Log(r) == /\ LogOn => Len(hist) < MaxLen      \* generation: a behaviour has MaxLen steps
+          /\ hist' = IF LogOn THEN Append(hist, r) ELSE hist
 
 InitShards ==
   [i \in 1..NInit |-> [lo |-> (i - 1) * 64, hi |-> i * 64, par |-> {}, closed |-> FALSE, n |-> 0]]
@@ -336,15 +337,13 @@ Complete ==
   /\ UNCHANGED <<shards, up, R, known, asg, last, scur, inbox, asn, ridx, rseq, itst, own, em, fin, finBy,
                  barr, pcur, pcut, pfin, whyS, whyC, nst>>
 
-Steps ==
+Next ==
   \/ \E r \in Runners : Start(r)
   \/ Tick \/ StartCkpt \/ Complete \/ Expire
   \/ \E s \in All : Split(s) \/ Put(s)
   \/ \E s \in All, t \in All : Merge(s, t)
   \/ \E r \in RR : Barrier(r) \/ Deliver(r)
   \/ \E r \in RR, lim \in 1..MaxPage : Read(r, lim)
-
-Next == IF LogOn THEN Len(hist) < MaxLen /\ Steps ELSE Steps
 
 Spec == Init /\ [][Next]_vars
 
